@@ -38,7 +38,7 @@ CfgOf(e) == [policy |-> e.policy, drain |-> e.drain, retries |-> e.retries, ver 
              rejoin |-> e.rejoin, resolver |-> e.resolverKind, lruMax |-> e.lruMax, cid |-> e.cid, tamIn |-> e.tamIn, sei |-> e.sei,
              connectUnits |-> 1]
 
-NeedOf(e) == IF e.variant \in {"wild", "shared", "badfilter", "nolocalshared"} THEN e.variant ELSE "none"
+NeedOf(e) == IF e.variant \in {"wild", "shared", "sharedwild", "badfilter", "nolocalshared"} THEN e.variant ELSE "none"
 
 AttrsOf(e) == [NoAttrs EXCEPT !.qos = IF e.kind = "pub" THEN e.qos ELSE 0, !.key = e.op, !.tmo = e.tmo, !.topic = e.topic, !.ualias = e.alias,
                               !.retain = e.retain = 1, !.need = NeedOf(e), !.n = e.entries,
